@@ -493,7 +493,7 @@ def crash_states(log: Sequence) -> list:
         states.append((f'prefix-{i}/{len(raw)}', raw[:i]))
         if i < len(raw) and raw[i][0] == 'write':
             data = raw[i][2]
-            cuts = sorted({1, len(data) // 2, len(data) - 1} - {0, len(data)})
+            cuts = sorted(({1, len(data) // 2, len(data) - 1} | set(mid_character_cuts(data))) - {0, len(data)})
             for c in cuts:
                 if 0 < c < len(data):
                     states.append((f'torn-{i}@{c}/{len(data)}', raw[:i] + [('write', raw[i][1], data[:c])]))
@@ -538,21 +538,35 @@ def crash_states(log: Sequence) -> list:
 
 
 def materialise(ops: Sequence, dest: str, template: Optional[str] = None):
-    """Build the directory a crash after `ops` leaves behind."""
+    """Build the directory a crash after `ops` leaves behind.  File offsets are tracked per path:
+    an open without truncation overwrites in place from offset 0, an append-mode open continues
+    at the end."""
     if template:
         shutil.copytree(template, dest, symlinks=True)
     else:
         os.makedirs(dest, exist_ok=True)
+    offset: dict = {}
     for op in ops:
         p = os.path.join(dest, op[1])
         if op[0] == 'mkdir':
             os.makedirs(p, exist_ok=True)
         elif op[0] == 'open':
-            if op[2] == 'trunc' or not os.path.exists(p):
+            how = op[2]
+            if how == 'trunc' or (how not in ('keep', 'append') and 'a' not in how and '+' not in how):
                 open(p, 'wb').close()
+                offset[op[1]] = 0
+            else:
+                if not os.path.exists(p):
+                    open(p, 'wb').close()
+                offset[op[1]] = os.path.getsize(p) if (how == 'append' or 'a' in how) else 0
         elif op[0] == 'write':
-            with open(p, 'ab') as f:
+            if not os.path.exists(p):
+                open(p, 'wb').close()
+            off = offset.get(op[1], os.path.getsize(p))
+            with open(p, 'r+b') as f:
+                f.seek(off)
                 f.write(op[2])
+            offset[op[1]] = off + len(op[2])
         elif op[0] == 'close':
             pass
         elif op[0] == 'unlink':
@@ -564,6 +578,11 @@ def materialise(ops: Sequence, dest: str, template: Optional[str] = None):
         elif op[0] == 'rename':
             if os.path.lexists(p):
                 os.replace(p, os.path.join(dest, op[2]))
+
+
+def mid_character_cuts(data: bytes) -> list:
+    """Cut positions that fall inside a multi-byte UTF-8 character."""
+    return [i for i in range(1, len(data)) if data[i] & 0xC0 == 0x80][:12]
 
 
 def dir_state(root: str) -> dict:
